@@ -39,8 +39,10 @@ Inductive oev :=
 (* (step after which it was observed, event) *)
 Definition obs := list (Z * oev).
 
-Definition zindex {A} (l : list A) : list (Z * A) :=
-  combine (map Z.of_nat (seq 0 (length l))) l.
+(* a list paired with the positions 0, 1, 2, ... of its elements *)
+Fixpoint zindex_from {A} (n : Z) (l : list A) : list (Z * A) :=
+  match l with [] => [] | x :: r => (n, x) :: zindex_from (n + 1) r end.
+Definition zindex {A} (l : list A) : list (Z * A) := zindex_from 0 l.
 
 Section Spec.
 Variable iv : Z.                (* the batcher's interval *)
@@ -49,7 +51,7 @@ Variable ob : obs.              (* the observation *)
 
 Definition isc : list (Z * op) := zindex sc.
 Definition nsteps : Z := Z.of_nat (length sc).
-Definition steps : list Z := map Z.of_nat (seq 0 (length sc)).
+Definition steps : list Z := map fst isc.
 
 (* virtual time once step r has been carried out *)
 Definition time_after (r : Z) : Z :=
@@ -215,7 +217,7 @@ Definition zrange (a b : Z) : list Z := map (fun n => a + Z.of_nat n) (seq 0 (Z.
 Definition call_ok (c : Z) : bool :=
   let d := match done_step c with Some d => d | None => nsteps end in
   forallb may_block (zrange c d).
-Definition o_no_wedge : bool := forallb (fun c => negb (is_call c) || call_ok c) steps.
+Definition o_no_wedge : bool := forallb (fun c => if is_call c then call_ok c else true) steps.
 Definition s_no_wedge : Prop :=
   forall c, In c steps -> is_call c = true ->
     forall r, c <= r -> (forall d, done_step c = Some d -> r < d) -> r < nsteps -> may_block r = true.
@@ -226,13 +228,16 @@ Definition s_no_wedge : Prop :=
       that has not been superseded in between and was not cut off by Close, every prompt
       subscriber subscribed before that step (and not cancelled by then) has received exactly
       those values, in due order (values with equal due instants: in any order). *)
-Definition fires_at (r : Z) (b : Z * Z) : bool :=
+(* [tr], [tr1]: the virtual time after step r and after step r-1 *)
+Definition fires_at (r tr tr1 : Z) (b : Z * Z) : bool :=
   let v := fst b in
   if v <? r then
     let dv := due v in
-    if (dv <=? time_after r) && (time_after (r - 1) <? dv) then
-      negb (existsb (fun b' => (v <? fst b') && (fst b' <? r) && (snd b' =? snd b)) batches)
-      && negb (before close_step r)
+    if dv <=? tr then
+      if tr1 <? dv then
+        if existsb (fun b' => (v <? fst b') && (fst b' <? r) && (snd b' =? snd b)) batches then false
+        else negb (before close_step r)
+      else false
     else false
   else false.
 
@@ -243,7 +248,8 @@ Fixpoint insert_by (f : Z -> Z) (x : Z) (l : list Z) : list Z :=
   end.
 Definition sort_by (f : Z -> Z) (l : list Z) : list Z := fold_left (fun acc x => insert_by f x acc) l [].
 
-Definition expected_at (r : Z) : list Z := sort_by due (map fst (filter (fires_at r) batches)).
+Definition expected_at (r : Z) : list Z :=
+  sort_by due (map fst (filter (fires_at r (time_after r) (time_after (r - 1))) batches)).
 Fixpoint has_tie (l : list Z) : bool :=
   match l with
   | x :: ((y :: _) as r) => (due x =? due y) || has_tie r
@@ -256,8 +262,9 @@ Definition same_delivery (got want : list Z) : bool :=
 (* the first step at which back-pressure is possible (the script's length if there is none) *)
 Definition block_from : Z := match find may_block steps with Some r => r | None => nsteps end.
 Definition o_complete : bool :=
+  let bf := block_from in
   forallb (fun r =>
-     if r <? block_from then
+     if r <? bf then
        let want := expected_at r in
        forallb (fun e => let i := fst e in let p := fst (snd e) in
           if snd (snd e) && (p <? r) && negb (before (cancel_step i) r)
